@@ -584,7 +584,29 @@ fn isolate(exe: &str, mon: &Monitor, tier: Tier, seed: u64, idx: u64) -> (Worker
     (end, err, c.violations.into_iter().map(|(_, v)| v).collect())
 }
 
+/// Monitors name the step they are about to take on stderr, so that a process
+/// death (which loses all in-process state) can be attributed to a call site:
+/// the last step named before the death becomes part of the signature.
+pub fn step(label: &str) {
+    eprintln!("VERIF_STEP {}", label);
+}
+
+fn last_step(err: &str) -> Option<&str> {
+    err.lines()
+        .filter_map(|l| l.strip_prefix("VERIF_STEP "))
+        .last()
+        .filter(|l| *l != "-")
+}
+
 fn stderr_class(err: &str) -> String {
+    let base = stderr_class_base(err);
+    match last_step(err) {
+        Some(st) => format!("{}:{}", base, st),
+        None => base,
+    }
+}
+
+fn stderr_class_base(err: &str) -> String {
     if err.contains("has overflowed its stack") {
         "stack-overflow".into()
     } else if err.contains("memory allocation of") {
